@@ -95,7 +95,24 @@ def main():
         ns = {}
         for hid, k in enumerate(keys):
             ns["visit_" + k] = (lambda self, node, hid=hid: calls.append((hid, node)) or ("R", hid))
-        V = type("V", (P.NodeVisitor,), ns)
+        # handlers may live in the class itself, in a base visitor class, in a mixin, or two levels up
+        shape = rng.randrange(4)
+        if shape == 0 or not ns:
+            V = type("V", (P.NodeVisitor,), ns)
+        elif shape == 1:
+            Base = type("BaseV", (P.NodeVisitor,), ns)
+            V = type("V", (Base,), {})
+        elif shape == 2:
+            items = list(ns.items())
+            half = len(items) // 2
+            Mixin = type("Mixin", (), dict(items[:half]))
+            V = type("V", (Mixin, P.NodeVisitor), dict(items[half:]))
+        else:
+            items = list(ns.items())
+            Top = type("TopV", (P.NodeVisitor,), dict(items[::2]))
+            Mid = type("MidV", (Top,), dict(items[1::2]))
+            V = type("V", (Mid,), {})
+        stats["hierarchy_shape_%d" % shape] = stats.get("hierarchy_shape_%d" % shape, 0) + 1
         v = V()
         node = P.Node(variant, P.LiteralNode("x", 0, 1)) if rng.random() < 0.85 else P.LiteralNode("x", 0, 1)
         if isinstance(node, P.LiteralNode):
